@@ -49,7 +49,8 @@ def gen_spec(seed):
         fm = [rng.choice(FMTS) for _ in range(n)]
         return sorted(fm, key=lambda f: -struct.calcsize(f))
     hashvars = [dict(fmt=rng.choice(FMTS), default=rng.randrange(100),
-                     role=rng.choice("RW")) for _ in range(rng.randint(1, 3))]
+                     role=rng.choice("RW"), src=rng.choice("BbHhIiqQ"))
+                for _ in range(rng.randint(1, 3))]
     key = members(rng.randint(1, 3))
     if sum(struct.calcsize(f) for f in key) == 1:
         key = [rng.choice("hHiI")] + key   # keep the Dict's map apart from
@@ -84,7 +85,11 @@ def build(ebpf_mod, am, hm, spec, program_side):
         aux = am.ArrayMap()
         ns["aux"] = aux
         for i, hv in enumerate(spec["hashvars"]):
-            ns[f"xh{i}"] = aux.globalVar("q" if hv["fmt"].islower() else "Q")
+            if hv["role"] == "W":
+                ns[f"xh{i}"] = aux.globalVar(hv["src"])
+            else:
+                ns[f"xh{i}"] = aux.globalVar("q" if hv["fmt"].islower()
+                                             else "Q")
         for i, f in enumerate(spec["key"]):
             ns[f"ka{i}"] = aux.globalVar("q")
             ns[f"kb{i}"] = aux.globalVar("q")
@@ -376,10 +381,15 @@ def program_part(seed, q, res, part):
                         "the low bytes of the variable's cell with the "
                         "format's sign", [aux(f"xh{i}", 8, fin.mem) != ext]))
         else:
-            obl.append((f"hash variable {i} ({hv['fmt']}): the program's "
-                        "store arrives in the low bytes of the variable's "
-                        "cell", [load(fin.mem, bv(cell), w) !=
-                                 aux(f"xh{i}", w)]))
+            ws = struct.calcsize(hv["src"])
+            sv = aux(f"xh{i}", ws)
+            if ws < 8:
+                sv = (SignExt if hv["src"].islower() else ZeroExt)(
+                    64 - 8 * ws, sv)
+            obl.append((f"hash variable {i} ({hv['fmt']}) assigned from a "
+                        f"{hv['src']} variable: the value arrives in the low "
+                        "bytes of the variable's cell",
+                        [load(fin.mem, bv(cell), w) != Extract(8 * w - 1, 0, sv)]))
     others = [i for i, hv in enumerate(spec["hashvars"])
               if hv["role"] == "R" and part == "hash"]
     for i in others:
@@ -465,7 +475,7 @@ def program_part(seed, q, res, part):
             res["undecided_list"].append(f"{name}: {oname}")
         else:
             rep = replay_prog(mdl, spec, code, maps, hmi, dmi, ami, mem0,
-                              pres0, slots0, e)
+                              pres0, slots0, e, part)
             res["replayed"] += 1
             if rep is None:
                 res["errors"].append(f"{name}: '{oname}' counterexample did "
@@ -487,7 +497,8 @@ def program_part(seed, q, res, part):
         maps=[(m.kind, m.key_size, m.value_size) for m in maps]))
 
 
-def replay_prog(model, spec, code, maps, hmi, dmi, ami, mem0, pres0, slots0, e):
+def replay_prog(model, spec, code, maps, hmi, dmi, ami, mem0, pres0, slots0, e,
+                part="dict"):
     """concrete run of the emitted bytes on the model's initial state;
     compare with the Python-level reference semantics"""
     from ..bpfsym import bv
@@ -523,7 +534,7 @@ def replay_prog(model, spec, code, maps, hmi, dmi, ami, mem0, pres0, slots0, e):
         mach.ld(ami.base + e.__dict__[n] + j, 1) for j in range(w)), "little")
     h = mach.hash_contents(hmi.fd)
     d = mach.hash_contents(dmi.fd)
-    for i, hv in enumerate(spec["hashvars"]):
+    for i, hv in enumerate(spec["hashvars"] if part == "hash" else []):
         w = struct.calcsize(hv["fmt"])
         if hv["role"] == "R":
             cell = bytes(mem[hmi.base + (i + 1) * 8 + j] for j in range(w))
@@ -533,9 +544,15 @@ def replay_prog(model, spec, code, maps, hmi, dmi, ami, mem0, pres0, slots0, e):
                              f"{af(f'xh{i}'):#x}, cell holds {want}")
         else:
             got = h.get(bytes([i + 1]), b"")[:w]
-            if got != a(f"xh{i}").to_bytes(8, "little")[:w]:
-                probs.append(f"hash variable {i} ({hv['fmt']}): cell gets "
-                             f"{got.hex()}, value {a(f'xh{i}'):#x}")
+            ws = struct.calcsize(hv["src"])
+            sval = int.from_bytes(a(f"xh{i}", ws).to_bytes(ws, "little"),
+                                  "little", signed=hv["src"].islower())
+            if got != (sval % 2 ** 64).to_bytes(8, "little")[:w]:
+                probs.append(f"hash variable {i} ({hv['fmt']}) := "
+                             f"{hv['src']} variable holding {sval}: cell gets "
+                             f"{got.hex()}")
+    if part == "hash":
+        return "; ".join(probs[:3]) or None
     koff, ksz = offsets(spec["key"])
     voff, vsz = offsets(spec["value"])
     ka = b"".join(a(f"ka{i}").to_bytes(8, "little")[:struct.calcsize(f)]
